@@ -1,0 +1,27 @@
+//go:build verif
+
+package internal
+
+import (
+	"fmt"
+
+	"github.com/lyraproj/pcore/px"
+)
+
+// Verification hook (build tag `verif` only, add-only): exposes the result of describe() before it is
+// formatted, with the same subject path element that px.DescribeMismatch uses.
+func init() {
+	px.VerifDescribe = func(name string, expected, actual px.Type) []px.VerifMismatch {
+		result := describe(expected, actual, []*pathElement{{fmt.Sprintf("function %s:", name), subject}})
+		out := make([]px.VerifMismatch, len(result))
+		for i, m := range result {
+			p := m.path()
+			vp := make([]px.VerifPathElem, len(p))
+			for j, pe := range p {
+				vp[j] = px.VerifPathElem{Kind: string(pe.pathType), Key: pe.key}
+			}
+			out[i] = px.VerifMismatch{Class: string(m.class()), Path: vp}
+		}
+		return out
+	}
+}
